@@ -158,6 +158,7 @@ CHECKS = {
         "tests": [
             {"name": "TestC14Padding", "checks": [500, 20000], "shards": [2, 16], "floor": 0.5},
             {"name": "TestC14Thresholds", "enum": True},
+            {"name": "TestC14Routes", "enum": True},
             {"name": "TestC14Soup", "checks": [4000, 60000], "shards": [2, 16], "floor": 0.5},
             K,
         ],
